@@ -1,8 +1,9 @@
 """C09 — faults arrive intact, are classified correctly and never leak internals.
 
-Drives the real Spyne code (WsgiApplication, ServerBase, and a loopback client built on
-spyne.client.RemoteProcedureBase) with generated faults / exceptions raised from five eager
-sites and two lazy (generator) sites under eight output protocols, and
+Drives the real Spyne code (WsgiApplication served chunked and unchunked, ServerBase, and a loopback
+client built on spyne.client.RemoteProcedureBase) with generated faults / exceptions raised from
+five eager sites and two generator sites (before / after the first item; for HttpRpc the generator
+is a streamed ByteArray) under eight output protocols, and
 
 * compares status + parsed response document with the Coq model (coq/C09/Model.v), case by case;
 * compares the Coq reference decoders / client parsers with the Python ones on the real bytes;
@@ -1108,16 +1109,21 @@ def run(check):
                   'arbitrary dotted sub-codes, boundary codes around the Client test, open-vocabulary first segments, '
                   'XML-unrepresentable content) and 17 kinds of non-Fault exceptions carrying random tokens, raised '
                   'from 5 eager sites (method body, method_call / method_return_object listeners on application and '
-                  'service) and 2 lazy generator sites; each case runs through WsgiApplication and, for a subset, '
-                  'ServerBase and the loopback client; a case is distinct by (transport, protocol, site, raised object)')
+                  'service) and 2 generator sites (before the first item, after it; an Iterable(Unicode) result, for '
+                  'HttpRpc a generator-valued ByteArray); each case runs through a WsgiApplication served chunked or '
+                  'unchunked (seeded choice; both for the generator sites) and, for a subset, ServerBase and the '
+                  'loopback client; a case is distinct by (transport, protocol, site, chunked, raised object)')
     check.trusted = list(lib.COMMON_TRUSTED) + [
         'translator harness/translate/faultpipe.py (error.py class table, fault_to_http_response_code chains, '
-        'get_fault_string_from_exception, the try/except skeleton of process_request -> Gen/FaultTables.v)',
+        'get_fault_string_from_exception, the try/except skeleton of process_request, the except clauses around '
+        'next(g) and get_out_string in WsgiApplication.handle_rpc, where the unchunked join and the 200 default sit, '
+        'the status rule of handle_error -> Gen/FaultTables.v)',
         'modelled, not verified: lxml (E-factory text/tag validation, tostring/fromstring), json, PyYAML, msgpack '
         'turn the modelled documents into bytes and back; the harness parses the real response bytes with the same '
         'libraries into the model\'s document types before comparing',
-        'hand-written and tied only by the correspondence: handle_rpc/handle_error of server/wsgi.py, the fault '
-        'serialisers/parsers of xml.py, soap12.py, model/fault.py, util/etreeconv.py',
+        'hand-written and tied only by the correspondence: the control flow of handle_rpc/handle_error around the '
+        'generated tables, which protocols serialise a generator result lazily (Model.lazy_out: HttpRpc only), the '
+        'fault serialisers/parsers of xml.py, soap12.py, model/fault.py, util/etreeconv.py',
         'equality notions of the property as encoded in Model.expected_obs and the Python oracle: QName prefix of a '
         'SOAP fault code ignored, Sender/Receiver = Client/Server under SOAP 1.2, and None = "" = {} inside a detail '
         'carried as XML (all three are an empty element)',
@@ -1133,6 +1139,9 @@ def run(check):
         'XML element names of detail keys: theorem guard is the ASCII NCName subset; non-ASCII names are accepted by '
         'lxml but not generated for XML protocols',
         'SOAP 1.2: first code segment is Client or Server (closed vocabulary, anything else is TypeError by design)',
+        'output protocols outside the eight modelled ones (HtmlMicroFormat, cloth, csv, ...) and the other transports '
+        '(twisted, django, zeromq, NullServer) are not covered',
+        'no auxiliary (aux) method contexts: process_contexts has nothing to do',
     ]
     check.regen(['faultpipe'])
     check.check_sources()
